@@ -479,6 +479,25 @@ func (e *vmEnvironment) loadDesugaredElaboration(location common.Location) (*com
 	return program.compiledProgram.desugaredElaboration, nil
 }
 
+// loadTypeElaboration loads the elaboration of the program at the given location,
+// which declares a type that is needed at run-time.
+//
+// Like the import location handler of the interpreter environment,
+// it propagates a failure to load the program, e.g. an error returned by the host.
+// Returns nil if there is no program at the location.
+func (e *vmEnvironment) loadTypeElaboration(location common.Location) *compiler.DesugaredElaboration {
+	program, err := e.loadProgram(location)
+	if err != nil {
+		panic(err)
+	}
+
+	if program == nil {
+		return nil
+	}
+
+	return program.compiledProgram.desugaredElaboration
+}
+
 func (e *vmEnvironment) loadCompositeType(location common.Location, typeID interpreter.TypeID) *sema.CompositeType {
 	ty := e.allDeclaredTypes[typeID]
 	if ty != nil {
@@ -489,8 +508,8 @@ func (e *vmEnvironment) loadCompositeType(location common.Location, typeID inter
 		return stdlib.FlowEventTypes[typeID]
 	}
 
-	elaboration, err := e.loadDesugaredElaboration(location)
-	if err != nil {
+	elaboration := e.loadTypeElaboration(location)
+	if elaboration == nil {
 		return nil
 	}
 
@@ -508,8 +527,8 @@ func (e *vmEnvironment) loadInterfaceType(location common.Location, typeID inter
 		return ty.(*sema.InterfaceType)
 	}
 
-	elaboration, err := e.loadDesugaredElaboration(location)
-	if err != nil {
+	elaboration := e.loadTypeElaboration(location)
+	if elaboration == nil {
 		return nil
 	}
 
@@ -527,8 +546,8 @@ func (e *vmEnvironment) loadEntitlementType(location common.Location, typeID int
 		return ty.(*sema.EntitlementType)
 	}
 
-	elaboration, err := e.loadDesugaredElaboration(location)
-	if err != nil {
+	elaboration := e.loadTypeElaboration(location)
+	if elaboration == nil {
 		return nil
 	}
 
@@ -546,8 +565,8 @@ func (e *vmEnvironment) loadEntitlementMapType(location common.Location, typeID 
 		return ty.(*sema.EntitlementMapType)
 	}
 
-	elaboration, err := e.loadDesugaredElaboration(location)
-	if err != nil {
+	elaboration := e.loadTypeElaboration(location)
+	if elaboration == nil {
 		return nil
 	}
 
